@@ -1404,10 +1404,68 @@ def w_completion(failure, tier):
                 return dict(found=True, cmd='%s search <<< hex(json)' % BIN,
                             input='%d documents over %d terms pre00.. ; fuzzy completion on body, prefix "pre00", max_edits 1, max_expansions 20, size 8; one segment against %d segments' % (len(docs), nterms, len(batches)),
                             observed='%d segments: %s' % (len(batches), got), expected='%s (the single-segment answer)' % ref)
+    # fuzzy completion finds the term itself, with its document count, whatever alphabet it is written in
+    words = ["éèêàù", "привет", "καλημέρα", "日本語", "hello"]
+    docs = [{"_id": "w%d_%d" % (i, c), "body": w} for i, w in enumerate(words) for c in range(2)]
+    for w in words:
+        freq = dict(REQ_BASE, query={"type": "match_all"}, limit=1,
+                    suggest={"s": {"type": "completion", "field": "body", "prefix": w, "size": 5,
+                                   "fuzzy": {"max_edits": 1, "prefix_length": 1, "max_expansions": 20, "min_length": 2}}})
+        out, err = drive_search({"schema": None, "batches": [docs], "requests": [freq]})
+        if out is None or 'ok' not in out[0]:
+            return dict(found=False, note='search driver failed: %s' % (err or str(out)[:200]))
+        got = [(o['text'], o['doc_freq']) for o in out[0]['ok'].get('suggest', {}).get('s', {}).get('options', [])]
+        n += 1
+        if (w.lower(), 2) not in got:
+            return dict(found=True, cmd='%s search <<< hex(json)' % BIN,
+                        input='10 documents, two for each of %s; fuzzy completion on body, prefix %s, max_edits 1' % (words, _json.dumps(w, ensure_ascii=False)),
+                        observed='options %s' % got, expected='the term itself with doc_freq 2 among the options')
     return dict(found=False, note='completion: %d (corpus, size, segment layout) combinations agree with the document counts of the corpus (prefix) or with the single-segment answer (fuzzy)' % n)
 
 
+def w_accept(failure, tier):
+    """documents that break the schema in one way each, queued between good ones: whatever add_document accepts, the next
+    commit must apply - a commit never fails because of a queued document (and so never blocks the documents after it)"""
+    kw = lambda n: {"type": "keyword", "name": n, "stored": True, "indexed": True, "fast": True, "nullable": False}
+    add = {"numeric_fields": [{"name": "n", "i64": True, "fast": True, "stored": True, "nullable": False}],
+           "keyword_fields": [{"name": "k", "stored": True, "indexed": True, "fast": True, "nullable": False}],
+           "nested_fields": [{"name": "c", "fields": [kw("a")], "nullable": False}]}
+    good = lambda i: {"_id": "g%d" % i, "body": "rust %d" % i, "n": i, "k": "x", "c": [{"a": "u"}]}
+    odd = [
+        ("an unknown top-level field", dict(good(100), color="red")),
+        ("an unknown top-level field holding an object", dict(good(101), extra={"a": 1})),
+        ("a string in a numeric field", dict(good(102), n="seven")),
+        ("null in a non-nullable keyword field", dict(good(103), k=None)),
+        ("null in a non-nullable nested field", dict(good(104), c=None)),
+        ("a nested element that is not an object", dict(good(105), c=["text"])),
+        ("an unknown field inside a nested object", dict(good(106), c=[{"a": "u", "zz": 1}])),
+        ("a number in a text field", dict(good(107), body=42)),
+        ("a blank id", dict(good(108), _id="  ")),
+        ("no id", {"body": "rust"}),
+    ]
+    cases = []
+    for (what, doc) in odd:
+        cases.append((what, {"schema_add": add, "ops": [["add", good(1)], ["add", doc], ["commit"], ["add", good(2)], ["commit"]]}))
+    outs = drive('history', [_json.dumps(c).encode() for (_w, c) in cases])
+    n = 0
+    for (what, c), r in zip(cases, outs):
+        if not r.startswith('OK '):
+            return dict(found=False, note='history driver failed: %s' % r[:300])
+        d = _json.loads(r[3:])
+        n += 1
+        bad = [l for l in d.get('log', []) if 'commit failed' in l]
+        if bad:
+            accepted = not any(l.startswith('add failed') for l in d.get('log', []))
+            return dict(found=True, cmd='%s history <<< hex(json)' % BIN,
+                        input='a good document, then a document with %s (%s), commit, another good document, commit' % (what, _json.dumps(c['ops'][1][1])),
+                        observed='%s; log: %s; live afterwards: %s' % ('add_document accepted it' if accepted else 'add_document refused something', d.get('log'), [x[0] for x in d.get('live', [])]),
+                        expected='no commit fails: a document is either refused by add_document or committed')
+    return dict(found=False, note='accepted documents: %d histories, each queueing one schema-breaking document between good ones: every commit succeeds' % n)
+
+
 GENERATORS = {
+    ('U40', 'validate_fields'): w_accept,
+    ('U40', 'collect_fields'): w_accept,
     ('U39', 'prefix_candidates'): w_completion,
     ('U39', 'suggest_cut'): w_completion,
     ('U39', 'fuzzy_candidates'): w_completion,
